@@ -13,4 +13,7 @@ for p in "$@"; do
 done
 git -C /repo worktree remove --force $W
 h=$(python3 -c "import hashlib;print(hashlib.sha1('$W'.encode()).hexdigest()[:10])")
+# keep replay and evidence files of this run for inspection
+keep=/tmp/seedreplays/$(basename $(dirname $patch))_$(basename $(dirname $(dirname $(dirname $patch))))
+mkdir -p $keep; cp -r /verif/build/alt_$h/replays /verif/build/alt_$h/evidence $keep/ 2>/dev/null
 rm -rf /verif/build/alt_$h
